@@ -546,6 +546,10 @@ class UserTrackingManager:
             return None
 
         tracked_user = self._tracked_users[user.name]
+        # The tracking task has finished (the user is no longer tracked) but the
+        # entry was not yet removed
+        if tracked_user.task is None or tracked_user.task.done():
+            return None
 
         request = TrackingRequest(tracked_user.remove_flag, flag)
         tracked_user.queue.put_nowait(request)
@@ -679,10 +683,10 @@ class UserTrackingManager:
 
     def _get_tracked_user_object(self, user: User) -> TrackedUser:
         """Gets or creates a tracked user object"""
-        if user.name in self._tracked_users:
-            tracked_user = self._tracked_users[user.name]
-
-        else:
+        tracked_user = self._tracked_users.get(user.name)
+        # A tracking task that has finished no longer handles requests, its
+        # entry just hasn't been removed yet
+        if tracked_user is None or tracked_user.task is None or tracked_user.task.done():
             tracked_user = TrackedUser(user)
             tracked_user.task = asyncio.create_task(
                 self._tracking_task(tracked_user))
@@ -707,7 +711,9 @@ class UserTrackingManager:
             )
 
         finally:
-            self._tracked_users.pop(tracked_user.user.name, None)
+            # Don't remove the entry of a successor
+            if self._tracked_users.get(tracked_user.user.name) is tracked_user:
+                self._tracked_users.pop(tracked_user.user.name, None)
 
     async def _on_state_changed(self, event: ConnectionStateChangedEvent):
         if not isinstance(event.connection, ServerConnection):
